@@ -49,4 +49,50 @@ PROPS = {
                 'list path (allAllowedConnections) computes on a fresh engine holding the same objects',
         'assumptions': ['World.Valid inputs'],
     },
+    'C04': {
+        'lean': ['Netpol.Properties.C04'],
+        'families': [('diff', 500, 20000)],
+        'rule': 'pairs of worlds (the second a random edit of the first: objects dropped, workloads/policies added or regenerated, kinds changed; 8% identical) '
+                'through the real ConnDiffFromDirPaths; compared with the model of diff.go (K-diff); P recomputes the pointwise diff from the two real list '
+                'results at every workload pair and every refined IP segment, and checks diff(B,A)=swap(diff(A,B)) and diff(A,A) has no changes. '
+                'non-trivial/distinct = distinct diff results',
+        'assumptions': ['World.Valid inputs'],
+    },
+    'C14': {
+        'lean': ['Netpol.Properties.C14'],
+        'families': [('edit14', 800, 30000)],
+        'rule': 'NetworkPolicy-only worlds and one single-step edit (add rule in a governed direction, add policy over governed / ungoverned pods, '
+                'matchLabels<->In, range<->two ranges, CIDR<->halves, policy<->split, explicit<->defaulted policyTypes); both runs through the real code and the model; '
+                'P compares the two real results pointwise (inclusion / equality / locality) on the common refinement of the IP partitions',
+        'assumptions': ['inputs without admin policies'],
+    },
+    'C16': {
+        'lean': ['Netpol.Properties.C16'],
+        'families': [('focus', 500, 20000)],
+        'rule': 'worlds queried unfocused and with --focusworkload for every workload name, some namespace/name forms, absent names and ingress-controller; '
+                'P: the focused result equals the filter of the unfocused one; absent focus gives an empty result with a warning naming it',
+        'assumptions': [],
+    },
+    'C17': {
+        'lean': ['Netpol.Properties.C17'],
+        'families': [('reexpress', 500, 20000), ('list', 800, 20000)],
+        'accept_props': ['C17'],
+        'rule': 'worlds and a re-expression of every workload (other kind, other replica count 0..3, 1-3 bare pods sharing a controller owner); '
+                'P: pointwise equal connectivity after erasing the [Kind] suffix, same number of peers; list family: one peer per workload of the input',
+        'assumptions': [],
+    },
+    'C19': {
+        'lean': ['Netpol.Properties.C19'],
+        'families': [('conflict', 1200, 40000), ('list', 500, 10000)],
+        'rule': 'valid worlds padded with 0..40 admin policies, one injected conflict (same priority, priority out of range, duplicate ANP / NetworkPolicy name, '
+                'second BANP, BANP not named default, pods of one owner with different labels) at a random position, documents shuffled; list and diff (both argument '
+                'orders) must fail with the class of a conflict that is present',
+        'assumptions': ['sort.Slice is a correct comparison sort (Go library contract)'],
+    },
+    'C08': {
+        'lean': ['Netpol.Properties.C08'],
+        'families': [('shuffle', 500, 20000)],
+        'rule': 'worlds and a permutation (documents reordered and spread over 1-4 files, rules/peers/ports permuted); both runs must give the identical relation',
+        'assumptions': ['stdout / returned strings only'],
+    },
 }
